@@ -1,5 +1,18 @@
 package config
 
+import (
+	"errors"
+	"io"
+	"io/fs"
+
+	"github.com/AstromechZA/etcpwdparse"
+	"github.com/BurntSushi/toml"
+
+	"hop.computer/hop/certs"
+	"hop.computer/hop/keys"
+	"hop.computer/hop/pkg/thunks"
+)
+
 // C20 (consequence) — a client applies exactly the host blocks whose patterns
 // match the requested host, in order, each once. Patterns are chosen per path
 // from {absent, matching, non-matching} for each of <=3 blocks x <=2 patterns
@@ -62,4 +75,105 @@ func VH_C20_matchhost_applies_exactly_matching_blocks() {
 	default:
 		verifCover("some-applied")
 	}
+}
+
+// ---- C05: the server configuration switches that decide who may log in ----
+//
+// The TOML decoder is replaced by a fake that fills the parsed schema with
+// arbitrary values of each optional switch (absent / false / true); key and
+// certificate files are dummies. What is checked is the MAPPING from the parsed
+// file to the ServerConfig the server runs with: every switch follows its own
+// key, and an absent key means off.
+
+type c05File struct{}
+
+func (c05File) Stat() (fs.FileInfo, error) { return nil, errors.New("unused") }
+func (c05File) Read([]byte) (int, error)   { return 0, io.EOF }
+func (c05File) Close() error               { return nil }
+
+type c05FS struct{}
+
+func (c05FS) Open(name string) (fs.File, error) { return c05File{}, nil }
+
+func c05OptBool(tag string) *bool {
+	switch verifPick(tag, 0, 1, 2) {
+	case 1:
+		v := false
+		return &v
+	case 2:
+		v := true
+		return &v
+	}
+	return nil
+}
+
+var c05Parsed *serverConfigSchema
+
+func c05Decode(d *toml.Decoder, v interface{}) (toml.MetaData, error) {
+	p := v.(*serverConfigSchema)
+	p.EnableAuthgrants = c05OptBool("EnableAuthgrants")
+	p.EnableAuthorizedKeys = c05OptBool("EnableAuthorizedKeys")
+	p.InsecureSkipVerify = c05OptBool("InsecureSkipVerify")
+	p.DisableCertificateValidation = c05OptBool("DisableCertificateValidation")
+	p.AutoSelfSign = c05OptBool("AutoSelfSign")
+	c05Parsed = p
+	return toml.MetaData{}, nil
+}
+
+func c05Undecoded(m *toml.MetaData) ([]toml.Key, []int) { return nil, nil }
+
+func c05ReadDHKey(path string, f fs.FS) (*keys.X25519KeyPair, error) {
+	return &keys.X25519KeyPair{}, nil
+}
+func c05ReadCert(path string, f fs.FS) (*certs.Certificate, error) { return &certs.Certificate{}, nil }
+
+func c05On(p *bool) bool { return p != nil && *p }
+
+//verif:prop C05
+//verif:replay none
+//verif:stub (*github.com/BurntSushi/toml.Decoder).Decode = c05Decode
+//verif:stub (*github.com/BurntSushi/toml.MetaData).UndecodedWithLines = c05Undecoded
+//verif:stub hop.computer/hop/keys.ReadDHKeyFromPEMFileFS = c05ReadDHKey
+//verif:stub hop.computer/hop/certs.ReadCertificatePEMFileFS = c05ReadCert
+//verif:bounds server configuration file in which each of EnableAuthgrants, EnableAuthorizedKeys, InsecureSkipVerify, DisableCertificateValidation, AutoSelfSign is absent, false or true (3^5 files); TOML syntax and key/certificate files replaced by fakes
+//verif:cover loaded
+func VH_C05_every_access_switch_of_the_server_config_follows_its_own_key() {
+	fileSystem = c05FS{}
+	c, err := loadServerConfigFromFile(&ServerConfig{}, "config.toml")
+	verifAssert(err == nil && c != nil, "C05: the configuration loads")
+	if err != nil || c == nil {
+		return
+	}
+	p := c05Parsed
+	verifAssert(c.EnableAuthgrants == c05On(p.EnableAuthgrants), "C05: authorization grants are honoured iff the file says EnableAuthgrants = true (absent means disabled; no other key switches them on)")
+	verifAssert(c.EnableAuthorizedKeys == c05On(p.EnableAuthorizedKeys), "C05: EnableAuthorizedKeys follows its own key")
+	verifAssert(c.InsecureSkipVerify == c05On(p.InsecureSkipVerify), "C05: InsecureSkipVerify follows its own key")
+	verifAssert(c.DisableCertificateValidation == c05On(p.DisableCertificateValidation), "C05: DisableCertificateValidation follows its own key")
+	verifAssert(c.AutoSelfSign == c05On(p.AutoSelfSign), "C05: AutoSelfSign follows its own key")
+	verifCover("loaded")
+}
+
+// The account whose authorized_keys file is consulted is the account the
+// client asked to log in as - byte for byte ("Bob" is not "bob": the session
+// later runs as the requested name).
+
+var c05LookedUp []string
+
+//verif:prop C05
+//verif:bounds requested user name of 1..2 symbolic bytes (every byte value); the passwd lookup is a recorder
+//verif:cover looked-up
+func VH_C05_authorized_keys_directory_is_the_requested_accounts() {
+	c05LookedUp = nil
+	thunks.LookupUser = func(name string) (*etcpwdparse.EtcPasswdEntry, error) {
+		c05LookedUp = append(c05LookedUp, name)
+		return &etcpwdparse.EtcPasswdEntry{}, nil
+	}
+	name := verifString("requested-user", verifPick("name-len", 1, 2))
+	_, err := UserDirectoryFor(name)
+	verifAssert(err == nil, "C05: the directory of an existing account is found")
+	verifAssert(len(c05LookedUp) == 1, "C05: exactly one account is looked up")
+	if len(c05LookedUp) == 1 {
+		verifAssertStrEq(c05LookedUp[0], name, "C05: the account looked up is the requested account, byte for byte (no case folding)")
+	}
+	verifCover("looked-up")
 }
